@@ -246,6 +246,37 @@ func (r *runner) parseDerived() (map[string]*emitted, string, error) {
 	return out, string(b), nil
 }
 
+// reaches reports whether the emitted function from refers (transitively) to the emitted
+// function to.
+func reaches(em map[string]*emitted, from, to string) bool {
+	seen := map[string]bool{}
+	var visit func(n string) bool
+	visit = func(n string) bool {
+		if n == to {
+			return true
+		}
+		if seen[n] {
+			return false
+		}
+		seen[n] = true
+		e := em[n]
+		if e == nil || e.decl == nil || e.decl.Body == nil {
+			return false
+		}
+		found := false
+		ast.Inspect(e.decl.Body, func(x ast.Node) bool {
+			if id, ok := x.(*ast.Ident); ok && !found && id.Name != n && em[id.Name] != nil {
+				if visit(id.Name) {
+					found = true
+				}
+			}
+			return !found
+		})
+		return found
+	}
+	return visit(from)
+}
+
 type sigParam struct {
 	name   string
 	tcName string
@@ -607,9 +638,25 @@ func (r *runner) run() {
 				var t *target
 				switch e.file {
 				case deriveFile:
+					helper := ""
 					for name, m := range em {
 						if e.line >= m.start && e.line <= m.end {
 							t = byInst[name]
+							helper = name
+						}
+					}
+					if t == nil && helper != "" {
+						// an instance gombok derived on demand (recursive=true): the error belongs to
+						// every target whose emitted function reaches it
+						hit := false
+						for _, at := range active {
+							if reaches(em, at.InstName, helper) {
+								blame[at] = append(blame[at], fmt.Sprintf("%s:%d: (in %s, derived on demand) %s", e.file, e.line, helper, e.msg))
+								hit = true
+							}
+						}
+						if hit {
+							continue
 						}
 					}
 				case "zz_law.go":
